@@ -264,7 +264,7 @@ func c20Eval(ex *C20Extra, timeout time.Duration) (v *core.Violation, herr strin
 }
 
 func c20Timeout(n int) time.Duration {
-	return 20*time.Second + time.Duration(n/65536)*10*time.Second
+	return 12*time.Second + time.Duration(n/65536)*10*time.Second
 }
 
 func runC20(c *Check, seed uint64, i int, tier string, st *core.Stats) {
@@ -316,6 +316,16 @@ func runC20(c *Check, seed uint64, i int, tier string, st *core.Stats) {
 	if v == nil {
 		return
 	}
+	sig := v.Oracle + "|" + ex.Kind + "|" + firstWords(v.Message)
+	if v.Oracle == "C20.resource-blowup" {
+		sig = fmt.Sprintf("%s|%s|deep=%v", v.Oracle, ex.Kind, bracketRun(data) >= 100)
+	}
+	for _, f := range st.Found {
+		if f.V.Sig == sig {
+			st.Probes["repeat."+v.Oracle]++ // same finding again: already confirmed and minimised once in this worker
+			return
+		}
+	}
 	// a hang or abort is confirmed by a solo re-run with three times the budget before it is believed
 	if v.Oracle == "C20.resource-blowup" {
 		v2, _, _ := c20Eval(ex, 3*c20Timeout(len(data)))
@@ -331,15 +341,6 @@ func runC20(c *Check, seed uint64, i int, tier string, st *core.Stats) {
 		}
 	}
 	st.Probes["violation."+v.Oracle]++
-	sig := v.Oracle + "|" + ex.Kind + "|" + firstWords(v.Message)
-	if v.Oracle == "C20.resource-blowup" {
-		sig = fmt.Sprintf("%s|%s|deep=%v", v.Oracle, ex.Kind, bracketRun(data) >= 100)
-	}
-	for _, f := range st.Found {
-		if f.V.Sig == sig {
-			return
-		}
-	}
 	if len(st.Found) >= 12 {
 		return
 	}
